@@ -285,11 +285,11 @@ SOLVER_EVENTS = ([("add", f) for f in FORMS] + [("push", 1), ("push", 2), ("pop"
                  ("push", 0), ("reset",),
                  ("solve",), ("solve_lit", "nb"), ("solve_nonlit", "a|b"), ("is_sat", "b"), ("is_valid", "a"),
                  ("is_unsat", "na"), ("read",), ("is_sat_bad", "type"), ("is_sat_bad", "refused"),
-                 ("add_bad", "refused")])
+                 ("is_sat_bad", "unknown"), ("add_bad", "refused")])
 SOLVER_EVENTS_QUICK = ([("add", "a"), ("add", "na"), ("push", 1), ("push", 2), ("pop", 1), ("pop", 2), ("pop", 0),
                         ("push", 0), ("reset",),
                         ("solve",), ("solve_nonlit", "a|b"), ("is_sat", "b"), ("is_valid", "a"), ("read",), ("is_sat_bad", "type"),
-                        ("is_sat_bad", "refused")])
+                        ("is_sat_bad", "refused"), ("is_sat_bad", "unknown")])
 
 
 def _forms(env):
@@ -308,15 +308,25 @@ def _truth(forms, names):
     return False
 
 
-def run_solver_history(hist):
+def run_solver_history_nomodels(hist):
+    return run_solver_history(hist, {"generate_models": False})
+
+
+_CUR_OPTS = [None]
+
+
+def run_solver_history(hist, opts=None):
+    _CUR_OPTS[0] = opts
     env = Environment()
     push_env(env)
     try:
         F = _forms(env)
-        solver = BruteSolver(env)
+        solver = BruteSolver(env, **(opts or {}))
         m_int = env.formula_manager.Plus(env.formula_manager.Symbol("c16i", INT_T), env.formula_manager.Int(1))
         refused = env.formula_manager.Symbol("c16refused")
         solver.raise_on = set(getattr(solver, "raise_on", ())) | {refused}
+        unk = env.formula_manager.Symbol("c16unknown")
+        solver.unknown_on = set(getattr(solver, "unknown_on", ())) | {unk}
         levels = [[]]     # reference model: names
         viol = None
         obs = None
@@ -363,7 +373,8 @@ def run_solver_history(hist):
                 elif k in ("is_sat_bad", "add_bad"):
                     # a call the back-end refuses while the formula is being asserted: it raises and the
                     # live assertions (checked below in every state) are those of before
-                    arg = m_int if ev[1] == "type" else refused
+                    # ("unknown": the assertion is accepted and the check gives up)
+                    arg = {"type": m_int, "refused": refused, "unknown": unk}[ev[1]]
                     try:
                         if k == "is_sat_bad":
                             solver.is_sat(arg)
@@ -424,9 +435,10 @@ def id_name(F, x):
 def hist_sig(hist, kind):
     # minimise: drop events while the failure kind persists
     cur = list(hist)
+    opts = _CUR_OPTS[0]
 
     def fails(h):
-        o = run_solver_history(tuple(h))
+        o = run_solver_history(tuple(h), opts)
         if o.violation and o.violation[0].endswith(":" + kind):
             return True
         return False
@@ -444,7 +456,8 @@ def hist_sig(hist, kind):
                     break
     finally:
         _MINIMISING[0] = False
-    return "solver:%s:%s" % ("→".join(_ab(e) for e in cur), kind)
+        _CUR_OPTS[0] = opts
+    return "solver%s:%s:%s" % ("[nomodels]" if opts else "", "→".join(_ab(e) for e in cur), kind)
 
 
 _MINIMISING = [False]
@@ -485,6 +498,10 @@ def run(ctx):
     if not getattr(ctx, "parts", None) or "solver" in ctx.parts:
         events = SOLVER_EVENTS_QUICK if q else SOLVER_EVENTS
         st = bfs(ctx, "solver", run_solver_history, events, max_depth=6 if q else 8)
+        # the same search with a non-default option (no model generation: the deferred pop has no reader)
+        st2 = bfs(ctx, "solver-nomodels", run_solver_history_nomodels, events, max_depth=5 if q else 7)
+        for k_ in ("states", "transitions", "traces"):
+            st[k_] += st2[k_]
         ctx.coverage.update({"states": st["states"], "transitions": st["transitions"],
                              "traces_validated_against_impl": st["traces"] + script_evals,
                              "solver_depth_completed": st["depth_completed"]})
@@ -510,7 +527,7 @@ def replay(rec):
     hist = tuple(tuple(e) for e in case["history"])
     _MINIMISING[0] = True
     try:
-        o = run_solver_history(hist)
+        o = run_solver_history(hist, {"generate_models": False} if case.get("part") == "solver-nomodels" else None)
     finally:
         _MINIMISING[0] = False
     if o.violation:
